@@ -48,8 +48,17 @@ pub fn structured_pairs(
             let mut urng = crate::util::Rng::new(r.seed ^ unit.wrapping_mul(0x9E37));
             let bgs: Vec<usize> = match lvl {
                 0 => vec![(unit % gen::NBG as u64) as usize],
-                1 => (0..gen::NBG).filter(|k| (k + unit as usize) % 2 == 0 || *k == 0).collect(),
-                _ => (0..gen::NBG).collect(),
+                1 => {
+                    let mut v: Vec<usize> =
+                        (0..7).filter(|k| (k + unit as usize) % 2 == 0 || *k == 0).collect();
+                    v.extend_from_slice(&[7, 8, 7]);
+                    v
+                }
+                _ => {
+                    let mut v: Vec<usize> = (0..gen::NBG).collect();
+                    v.extend_from_slice(&[7, 8, 7, 8, 7, 8]);
+                    v
+                }
             };
             for bg in bgs {
                 gen::background(&mut buf, hlen, &ndl.bytes, bg, &mut urng);
@@ -136,6 +145,77 @@ pub fn exhaustive_pairs(
     }
 }
 
+/// Exhaustive small strings inflated by a letter -> word morphism, so that
+/// every period / critical-position shape of the small needles reappears in
+/// needles longer than 32 bytes (the Two-Way route on every backend) with the
+/// haystack's partial-match structure intact. Needles over `nalpha`,
+/// haystacks over `halpha` (a superset: the extra letter is a byte outside
+/// the needle).
+pub fn inflated_pairs(
+    r: &mut Runner,
+    nrange: (usize, usize),
+    hmax: usize,
+    f: &mut dyn FnMut(&mut Runner, &[u8], &[u8], u64),
+) {
+    let nalpha = b"ab";
+    let halpha = b"abc";
+    // short words for 5..8-letter needles, long words for 3..4-letter ones:
+    // either way the inflated needle is longer than 32 bytes
+    let long = nrange.1 <= 4;
+    let wordsets: [[&[u8]; 3]; 4] = if long {
+        [
+            [b"aaaaaaaaaaa", b"bbbbbbbbbbb", b"ccccccccccc"],
+            [b"abcdefghijkl", b"mnopqrstuvwx", b"ABCDEFGHIJKL"],
+            [b"ababababab#", b"abababababa", b"\x01\x41\x81\xc1\x01\x41\x81\xc1\x01\x41\x81"],
+            [b"xyxyxyxyxyxy", b"xyxyxyxyxyxz", b"qqqqqqqqqqqq"],
+        ]
+    } else {
+        [
+            [b"aaaaa", b"bbbbb", b"ccccc"],
+            [b"abcde", b"fghij", b"klmno"],
+            [b"abab#", b"ababa", b"\x01\x41\x81\xc1\x01"],
+            [b"xyxyxy", b"xyxyxz", b"qqqqqq"],
+        ]
+    };
+    let mut small_n = Vec::new();
+    let mut small_h = Vec::new();
+    let mut ndl = Vec::new();
+    let mut hay = Vec::new();
+    let mut unit = 5_000_000u64;
+    let mut pairno = 0u64;
+    for hl in 0..=hmax {
+        for hi in 0..gen::count_strings(halpha.len(), hl) {
+            unit += 1;
+            if !r.mine(unit) {
+                continue;
+            }
+            gen::nth_string(halpha, hl, hi, &mut small_h);
+            let ws = &wordsets[(unit % 4) as usize];
+            hay.clear();
+            for &c in &small_h {
+                hay.extend_from_slice(ws[(c - b'a') as usize]);
+            }
+            for nl in nrange.0..=nrange.1 {
+                if nl > hl + 1 {
+                    continue;
+                }
+                for ni in 0..gen::count_strings(nalpha.len(), nl) {
+                    gen::nth_string(nalpha, nl, ni, &mut small_n);
+                    ndl.clear();
+                    for &c in &small_n {
+                        ndl.extend_from_slice(ws[(c - b'a') as usize]);
+                    }
+                    pairno += 1;
+                    f(r, &hay, &ndl, pairno);
+                }
+            }
+            if r.stop() {
+                return;
+            }
+        }
+    }
+}
+
 fn nontrivial_pair(hay: &[u8], ndl: &[u8]) -> bool {
     !hay.is_empty() && !ndl.is_empty()
 }
@@ -174,6 +254,12 @@ pub fn meta_search(r: &mut Runner, rev: bool) {
         );
         let (nmax, hmax) = if lvl == 1 { (3, 7) } else { (4, 8) };
         exhaustive_pairs(r, b"abc", nmax, hmax, &[(0, 0), (72, 33)], &mut run_pair);
+    }
+    // (1b) the same small shapes inflated to needles of 30..48 bytes
+    if lvl >= 1 {
+        let (nr, hmax) = if lvl == 1 { ((5, 7), 8) } else { ((5, 8), 10) };
+        inflated_pairs(r, nr, hmax, &mut run_pair);
+        inflated_pairs(r, (3, 4), if lvl == 1 { 9 } else { 11 }, &mut run_pair);
     }
     // (2) structured
     let maxn = if lvl >= 2 { 5000 } else { 700 };
@@ -353,6 +439,11 @@ pub fn heuristics(r: &mut Runner) {
         _ => (5, 11),
     };
     exhaustive_pairs(r, b"ab", nmax, hmax, &[(0, 0), (70, 20)], &mut run_pair);
+    if lvl >= 1 {
+        let (nr, hmax) = if lvl == 1 { ((6, 7), 8) } else { ((5, 8), 9) };
+        inflated_pairs(r, nr, hmax, &mut run_pair);
+        inflated_pairs(r, (3, 4), if lvl == 1 { 8 } else { 10 }, &mut run_pair);
+    }
     structured_pairs(r, if lvl >= 2 { 1100 } else { 320 }, &mut run_pair);
     // every ranker x both settings on the prefilter-history haystacks
     prefilter_history(r, &mut |r, hay, ndl, k| {
@@ -564,6 +655,11 @@ pub fn blocks(r: &mut Runner) {
         // embedded just above the vector searchers' minimum length
         let (nmax, hmax) = if lvl == 1 { (4, 8) } else { (5, 10) };
         exhaustive_pairs(r, b"ab", nmax, hmax, &[(24, 0), (24, 7), (40, 25), (49, 33)], &mut run_pair);
+    }
+    if lvl >= 1 {
+        let (nr, hmax) = if lvl == 1 { ((5, 7), 8) } else { ((5, 8), 10) };
+        inflated_pairs(r, nr, hmax, &mut run_pair);
+        inflated_pairs(r, (3, 4), if lvl == 1 { 9 } else { 11 }, &mut run_pair);
     }
     structured_pairs(r, if lvl >= 2 { 5000 } else { 700 }, &mut run_pair);
     random_pairs(r, false, &mut run_pair);
